@@ -61,11 +61,14 @@ class AngArith (α : Type) [Add α] [Sub α] [Mul α] [Div α] [Neg α] where
   npRound : Nat → α → α
   /-- `'%.nf' % x` as (has minus sign, the integer `N` such that the digits printed are `N/10ⁿ`) -/
   fmtFixed : Nat → α → Bool × Nat
+  /-- `f'{Decimal(repr(abs(x))):.nf}'` as the integer `N` whose digits are printed (`N/10ⁿ`):
+  the shortest decimal that identifies the float, rounded half-even to `n` places -/
+  reprFixed : Nat → α → Nat
   /-- `math.radians` -/
   radians : α → α
 
 export AngArith (ofNat natDiv ofDecimal absv ltb leb eqb signbit divmod pmod trunc roundDec
-  roundInt npRound fmtFixed radians)
+  roundInt npRound fmtFixed reprFixed radians)
 
 /-! ## Decimal digit lists (what the Python does with printed strings) -/
 
@@ -187,15 +190,28 @@ def mkDDM (degree minute : PyNum α) (positive : Option Bool) : DDM α :=
     if degree.isZero && positive.isNone then (if minute.lt0 then false else p0) else p0
   { positive := p1, degree := degree.toInt.natAbs, minute := minute.absF }
 
-/-- HP validity test shared by `HPAngle.__init__` and `hp2dec`: the 13 decimals printed by
-`f'{hp:.13f}'`; first and third must be ≤ 5. -/
-def hpDigits (hp : α) : List Nat := digitsFixed 13 (fmtFixed 13 hp).2
+/-- `_hp_fields(hp)`: the 13 decimals of `f'{Decimal(repr(abs(hp))):.13f}'`, and the
+degrees / minutes / seconds fields sliced from them (`int(deg_str)`, `int(mmss[:2])`,
+`float(mmss[2:4] + '.' + mmss[4:])`) -/
+structure HPFields (α : Type) where
+  deg : Nat
+  min : Nat
+  sec : α
+  mmss : List Nat
 
-def hpValidate (hp : α) : Except PyErr Unit :=
-  let ds := hpDigits hp
-  if ds.getD 0 0 > 5 then .error .ValueError
-  else if ds.getD 2 0 > 5 then .error .ValueError
+def hpFields (hp : α) : HPFields α :=
+  let N := reprFixed 13 hp
+  let mmss := digitsFixed 13 N
+  { deg := N / 10 ^ 13, min := ofDigits (mmss.take 2),
+    sec := ofDecimal false (ofDigits (mmss.drop 2)) 9, mmss := mmss }
+
+/-- the validity test of `HPAngle.__init__` and `hp2dec`: first and third decimal ≤ 5 -/
+def hpCheck (mmss : List Nat) : Except PyErr Unit :=
+  if mmss.getD 0 0 > 5 then .error .ValueError
+  else if mmss.getD 2 0 > 5 then .error .ValueError
   else .ok ()
+
+def hpValidate (hp : α) : Except PyErr Unit := hpCheck (hpFields hp).mmss
 
 /-- `HPAngle(hp_angle)` -/
 def mkHP (hp : α) : Except PyErr (AngleObj α) :=
@@ -209,8 +225,9 @@ def mkHP (hp : α) : Except PyErr (AngleObj α) :=
 def dec2hp (dec : α) : α :=
   let ms := divmod (absv dec * ofNat 3600) (ofNat 60)   -- minute, second
   let dm := divmod ms.1 (ofNat 60)                      -- degree, minute
-  -- if round(second, 9) == 60: second = 0; minute += 1; if minute == 60: minute = 0; degree += 1
-  let c1 : Bool := eqb (roundDec 9 ms.2) (ofNat 60)
+  -- if round(second, …) == 60: second = 0; minute += 1; if minute == 60: minute = 0; degree += 1
+  -- round(second, 9 if degree < 512 else 8) == 60
+  let c1 : Bool := eqb (roundDec (if ltb dm.1 (ofNat 512) then 9 else 8) ms.2) (ofNat 60)
   let second : α := if c1 then ofNat 0 else ms.2
   let minute1 : α := if c1 then dm.2 + ofNat 1 else dm.2
   let c2 : Bool := c1 && eqb minute1 (ofNat 60)
@@ -247,37 +264,25 @@ def dec2ddm (dec : α) : DDM α :=
   let minute := dm.2 + ms.2 / ofNat 60
   mkDDM (.flt dm.1) (.flt minute) (some (leb (ofNat 0) dec))
 
-/-- `hp2dec` (angles.py 1044–1068) -/
+/-- `hp2dec` -/
 def hp2dec (hp : α) : Except PyErr α :=
-  -- hp_deg_str, hp_mmss_str = f'{hp:.13f}'.split('.')
-  let N := (fmtFixed 13 hp).2
-  let mmss := digitsFixed 13 N
-  if mmss.getD 0 0 > 5 then .error .ValueError
-  else if mmss.getD 2 0 > 5 then .error .ValueError
-  else
-    let deg := N / 10 ^ 13                       -- abs(int(hp_deg_str))
-    let mn := ofDigits (mmss.take 2)             -- int(hp_mmss_str[:2])
-    -- float(hp_mmss_str[2:4] + '.' + hp_mmss_str[4:])
-    let sec : α := ofDecimal false (ofDigits (mmss.drop 2)) 9
-    let dec : α := sec / ofNat 3600 + natDiv mn 60 + ofNat deg
+  let f := hpFields hp
+  match hpCheck f.mmss with
+  | .error e => .error e
+  | .ok () =>
+    let dec : α := f.sec / ofNat 3600 + natDiv f.min 60 + ofNat f.deg
     .ok (if leb (ofNat 0) hp then dec else -dec)
 
-/-- the first two lines of `hp2dms`, `hp2ddm`: `(degree, minute, second/10)` -/
-def hpSplit (hp : α) : α × α × α :=
-  let ds := divmod (roundDec 10 (absv hp * ofNat 1000)) (ofNat 10)   -- degmin, second
-  let dm := divmod ds.1 (ofNat 100)                                  -- degree, minute
-  (dm.1, dm.2, ds.2)
-
-/-- `hp2dms` (angles.py 1115–1126) -/
+/-- `hp2dms`: the fields as they are written -/
 def hp2dms (hp : α) : DMS α :=
-  let s := hpSplit hp
-  mkDMS (.flt s.1) (.flt s.2.1) (.flt (s.2.2 * ofNat 10)) (some (leb (ofNat 0) hp))
+  let f := hpFields hp
+  mkDMS (.int f.deg) (.int f.min) (.flt f.sec) (some (leb (ofNat 0) hp))
 
-/-- `hp2ddm` (angles.py 1129–1140) -/
+/-- `hp2ddm` -/
 def hp2ddm (hp : α) : DDM α :=
-  let s := hpSplit hp
-  let minute := s.2.1 + s.2.2 / ofNat 6
-  mkDDM (.flt s.1) (.flt minute) (some (leb (ofNat 0) hp))
+  let f := hpFields hp
+  let minute : α := ofNat f.min + f.sec / ofNat 60
+  mkDDM (.int f.deg) (.flt minute) (some (leb (ofNat 0) hp))
 
 /-- `dd2sec` (angles.py 1224–1233) -/
 def dd2sec (dd : α) : α :=
@@ -332,9 +337,7 @@ def dec (s : DMS α) : α :=
   let v := ofNat s.degree + natDiv s.minute 60 + s.second / ofNat 3600
   if s.positive then v else -v
 /-- `DMSAngle.hp` -/
-def hp (s : DMS α) : α :=
-  let v := ofNat s.degree + natDiv s.minute 100 + s.second / ofNat 10000
-  if s.positive then v else -v
+def hp (s : DMS α) : α := dec2hp s.dec
 /-- `DMSAngle.__abs__` -/
 def abs (s : DMS α) : DMS α := mkDMS (.int s.degree) (.int s.minute) (.flt s.second) none
 /-- `DMSAngle.__neg__` -/
@@ -349,10 +352,7 @@ def dec (s : DDM α) : α :=
   let v := ofNat s.degree + s.minute / ofNat 60
   if s.positive then v else -v
 /-- `DDMAngle.hp` -/
-def hp (s : DDM α) : α :=
-  let ms := divmod s.minute (ofNat 1)        -- minute_int, second
-  let v := ofNat s.degree + ms.1 / ofNat 100 + ms.2 * ofDecimal false 6 3
-  if s.positive then v else -v
+def hp (s : DDM α) : α := dec2hp s.dec
 /-- `DDMAngle.__abs__` -/
 def abs (s : DDM α) : DDM α := mkDDM (.int s.degree) (.flt s.minute) none
 /-- `DDMAngle.__neg__` -/
@@ -865,6 +865,35 @@ def npRound (n : Nat) (x : Float) : Float :=
   let f := PyF.ofRatNat (10 ^ n) 1
   rint (x * f) / f
 
+/-- `repr(x)` for finite `x > 0`: the shortest decimal `N·10^e` that rounds to `x` (for each
+number of digits the correctly rounded one is tried) -/
+def shortest (x : Float) : Nat × Int :=
+  let (m, e2) := PyF.toExact x
+  let p : Nat := if e2 ≥ 0 then m.toNat * 2 ^ e2.toNat else m.toNat
+  let q : Nat := if e2 ≥ 0 then 1 else 2 ^ (-e2).toNat
+  -- e10 with 10^e10 ≤ p/q < 10^(e10+1)
+  let ge10 (k : Int) : Bool := if k ≥ 0 then p ≥ q * 10 ^ k.toNat else p * 10 ^ (-k).toNat ≥ q
+  let est : Int := (((p.log2 : Int) - (q.log2 : Int)) * 30103) / 100000
+  let est := if ge10 (est + 2) then est + 2 else if ge10 (est + 1) then est + 1 else if ge10 est then est
+             else if ge10 (est - 1) then est - 1 else est - 2
+  let rec go (fuel k : Nat) : Nat × Int :=
+    let s : Int := (k : Int) - 1 - est        -- scale so that k digits are integral
+    let N : Nat := if s ≥ 0 then (PyF.roundHalfEven ((p * 10 ^ s.toNat : Nat) : Int) q).toNat
+                   else (PyF.roundHalfEven (p : Int) (q * 10 ^ (-s).toNat)).toNat
+    let back : Float := if s ≥ 0 then PyF.ofRatNat N (10 ^ s.toNat) else PyF.ofRatNat (N * 10 ^ (-s).toNat) 1
+    match fuel with
+    | 0 => (N, -s)
+    | f + 1 => if back == x then (N, -s) else go f (k + 1)
+  go 17 1
+
+/-- `f'{Decimal(repr(abs(x))):.nf}'`: digits of the shortest repr, rounded half-even to `n` places -/
+def reprFixed (n : Nat) (x : Float) : Nat :=
+  let a := x.abs
+  if a == 0.0 || a.isNaN || a.isInf then 0 else
+  let (N, e) := shortest a
+  let t : Int := e + (n : Int)
+  if t ≥ 0 then N * 10 ^ t.toNat else (PyF.roundHalfEven (N : Int) (10 ^ (-t).toNat)).toNat
+
 def ofDecimal (neg : Bool) (N n : Nat) : Float :=
   let v := PyF.ofRatNat N (10 ^ n)
   if neg then -v else v
@@ -887,6 +916,7 @@ instance : AngArith Float where
   roundInt x := PyF.scaledRound 0 x
   npRound := F.npRound
   fmtFixed n x := (F.sbit x, (PyF.scaledRound n x).natAbs)
+  reprFixed := F.reprFixed
   radians := PyF.radians
 
 end Ang
